@@ -99,9 +99,9 @@ def build(ctx, cc, lattice, nvol, ntv, nt, nq, np_, keys, system="triclinic"):
 CUBIC_EQUIV = {"c22": "c11", "c33": "c11", "c13": "c12", "c23": "c12", "c55": "c44", "c66": "c44"}
 
 
-def run_case(chk, cc, fm, lattice, tier, rng, system=None):
-    name = ("lattice-block" if lattice else "no-lattice-block") + (", system=%s" % system if system else "")
-    nvol, ntv, nt, nq, np_ = 5, 4, 2, 2, 3
+def run_case(chk, cc, fm, lattice, tier, rng, system=None, nvol=5):
+    name = ("lattice-block" if lattice else "no-lattice-block") + (", system=%s" % system if system else "") + (", %d volumes" % nvol if nvol != 5 else "")
+    ntv, nt, nq, np_ = 4, 2, 2, 3
     keys = ["c11", "c12", "c44", "c14"] if tier == "quick" else ["c11", "c22", "c33", "c12", "c13", "c23", "c44", "c55", "c66", "c15", "c46"]
     if system == "cubic":
         keys = ["c11", "c12", "c44"]
@@ -270,22 +270,60 @@ def run_case(chk, cc, fm, lattice, tier, rng, system=None):
     chk.witness(name + ":reached", "sat")
     chk.sample(dict(case=name, keys=keys, isothermal_c11=Sym.of(numpy.asarray(res["iso"][c_("11")], dtype=object)[1, 1]).short(3)))
     if fails:
-        replay_end_to_end(chk, rng, fails[0])
+        replay_end_to_end(chk, rng, fails[0], static_rows=nvol if nvol != 5 else None)
 
 
-_done = [False]
+_done = set()
 
 
-def replay_end_to_end(chk, rng, what):
+def reduced_example(rows):
+    """The akimotoite example with the static table thinned to `rows` volumes (lower end of the 4-12 volumes the statement quantifies over)."""
+    import shutil
+    import tempfile
+    src = os.path.join(os.environ.get("CIJ_REPO", "/repo"), "examples", "akimotoite")
+    tmp = tempfile.mkdtemp(prefix="c05ex_")
+    for f in ("settings.yaml", "input01"):
+        shutil.copy(os.path.join(src, f), tmp)
+    lines = open(os.path.join(src, "input02")).read().split("\n")
+    n = int(lines[1].split()[1])
+    keep = sorted(set(int(round(i * (n - 1) / (rows - 1))) for i in range(rows)))
+    head = lines[1].split()
+    head[1] = str(len(keep))
+    out = [lines[0], " ".join(head), lines[2]] + [lines[3 + i] for i in keep]
+    rest = lines[3 + n:]
+    lat_at = next((i for i, l in enumerate(rest) if l.strip() and not l.strip()[0].isdigit()), None)
+    if lat_at is not None:
+        lat_rows = [l for l in rest[lat_at + 1:] if l.strip()]
+        out += rest[:lat_at + 1] + [lat_rows[i] for i in keep if i < len(lat_rows)]
+    with open(os.path.join(tmp, "input02"), "w") as fp:
+        fp.write("\n".join(out) + "\n")
+    return tmp
+
+
+def replay_end_to_end(chk, rng, what, static_rows=None):
     """Stage R: the real Calculator on a shipped example, compared with an independent float reference built from the
     same files (own parser-free route: the data objects the real readers return, numpy polyfit, the real phonon classes)."""
-    if _done[0]:
+    if static_rows in _done:
         return
-    _done[0] = True
+    _done.add(static_rows)
     import warnings
     import cij.core.calculator as cc
     from cij.util import c_
     ex = os.path.join(os.environ.get("CIJ_REPO", "/repo"), "examples", "akimotoite", "settings.yaml")
+    tmp_ex = None
+    if static_rows:
+        tmp_ex = reduced_example(static_rows)
+        ex = os.path.join(tmp_ex, "settings.yaml")
+    try:
+        _replay_end_to_end(chk, rng, what, ex, cc, c_, warnings, static_rows)
+    finally:
+        if tmp_ex:
+            import shutil
+            shutil.rmtree(tmp_ex, ignore_errors=True)
+
+
+def _replay_end_to_end(chk, rng, what, ex, cc, c_, warnings, static_rows):
+    label = "examples/akimotoite/settings.yaml" + (" (static table thinned to %d volumes)" % static_rows if static_rows else "")
     try:
         with warnings.catch_warnings():
             warnings.simplefilter("ignore")
@@ -296,8 +334,8 @@ def replay_end_to_end(chk, rng, what):
     except Exception as e:
         import logging
         logging.disable(logging.NOTSET)
-        chk.violation("end-to-end:raises", "Calculator(examples/akimotoite/settings.yaml) raises %s: %s" % (type(e).__name__, str(e)[:160]),
-                      dict(settings="examples/akimotoite/settings.yaml"))
+        chk.violation("end-to-end:raises", "Calculator(%s) raises %s: %s" % (label, type(e).__name__, str(e)[:160]),
+                      dict(settings=label))
         return
     try:
         gpa, ang3 = unit_constants()
@@ -314,8 +352,8 @@ def replay_end_to_end(chk, rng, what):
             if dev > 1e-9:
                 worst = (key, dev)
         if worst:
-            chk.violation("end-to-end:static-part", "isothermal %r minus its phonon part is not the cubic finite-strain fit of V*c(V) (rel %.3g)" % worst,
-                          dict(settings="examples/akimotoite/settings.yaml"))
+            chk.violation("end-to-end:static-part", "%s: isothermal %r minus its phonon part is not the cubic finite-strain fit of V*c(V) (rel %.3g)" % ((label,) + worst),
+                          dict(settings=label))
             return
         # static P
         vin = numpy.array([x.volume for x in calc.qha_input.volumes])
@@ -570,10 +608,14 @@ def main():
     run_case(chk, cc, fm, False, tier, rng)
     run_case(chk, cc, fm, True, tier, rng)
     run_case(chk, cc, fm, False, tier, rng, system="cubic")
+    run_case(chk, cc, fm, False, tier, rng, nvol=4)      # lower end of the quantifier: 4 volumes (cubic fit exactly determined)
+    if tier != "quick":
+        run_case(chk, cc, fm, True, tier, rng, nvol=4)
+        run_case(chk, cc, fm, False, tier, rng, nvol=7)
     config_history_twin(chk, cc)
     qha_layer_wiring(chk, rng)
     # stage R(b): one real end-to-end run (catches constructor-level failures the stubs cannot see)
-    if not _done[0]:
+    if None not in _done:
         import warnings
         import logging
         ex = os.path.join(os.environ.get("CIJ_REPO", "/repo"), "examples", "akimotoite", "settings.yaml")
@@ -585,7 +627,7 @@ def main():
             chk.validation_points += 1
             chk.side_check("Calculator(examples/akimotoite/settings.yaml) constructs", True)
         except Exception as e:
-            _done[0] = True
+            _done.add(None)
             chk.violation("end-to-end:raises", "Calculator(examples/akimotoite/settings.yaml) raises %s: %s" % (type(e).__name__, str(e)[:160]),
                           dict(settings="examples/akimotoite/settings.yaml"))
         finally:
